@@ -292,6 +292,16 @@ func GetOutputNodes(root *html.Node) []*html.Node {
 			return false
 
 		case html.ElementNode:
+			// Elements that are never rendered must not be copied to the output.
+			switch node.Data {
+			case "script", "style":
+				return false
+			}
+
+			if !IsProbablyVisible(node) {
+				return false
+			}
+
 			outputNodes = append(outputNodes, node)
 			return true
 
